@@ -7,7 +7,8 @@ Models (repaired tree): `Enum.encode`, `Enum._encode_array`, `Enum._encode_array
 
 * An enumeration is the list of its member names in declaration order; the index of a member
   is its position (`Enum.__init__`: `self.index = len(self._member_names_)`), `cid` stands for
-  the identity of the class (what the class test on every element compares).
+  what the class test on every element compares (`cls == item.__class__`, by `EnumType.__eq__`
+  the identity of the class *name*).
 * Indices are natural numbers: the width of `EnumDType` (`uint8`) is not modelled (the
   property quantifies over 1..200 members, where `astype(uint8)` is the identity).
 * `numpy.argsort` is modelled by a (stable) insertion sort of `(name, index)` pairs,
@@ -23,7 +24,8 @@ namespace OFCore.EnumCodec
 /-! ## Data -/
 
 structure Enumeration where
-  /-- identity of the class -/
+  /-- what the class test `cls == item.__class__` compares (`EnumType.__eq__`: the identity of
+  the class name) -/
   cid : Nat
   /-- `_member_names_`, declaration order -/
   names : List String
@@ -254,11 +256,27 @@ def Input.elems : Input → List Elem
 /-- all elements are of one kind (int / str / Enum instance / other) -/
 def SameKind (xs : List Elem) : Prop := ∀ x ∈ xs, ∀ y ∈ xs, x.kind = y.kind
 
-/-- Facts of the Python object model, not checked by `encode`: an instance of the class `e`
-carries an index `< n`. (For an `EnumArray` of `e` handed to `encode`: it holds valid indices,
-i.e. it was produced by `encode` and not assembled by hand from arbitrary integers.) -/
-def Input.WF (e : Enumeration) (x : Input) : Prop :=
-  ∀ c i, Elem.member c i ∈ x.elems → c = e.cid → i < e.size
+/-- all elements are of one kind -/
+instance (xs : List Elem) : Decidable (SameKind xs) := by unfold SameKind; infer_instance
+
+/-- A fact of the Python object model that `encode` does not check: an instance of a class
+that passes the class test `cls == item.__class__` carries an index `< n`. `EnumType.__eq__`
+compares classes by (the identity of) their name, so this holds when the only classes that
+compare equal to `e` are `e` itself or re-imports of the same declaration; it fails for a
+*different* enumeration declared under the same class name (finding F-C15b). -/
+def Elem.WF (e : Enumeration) : Elem → Prop
+  | .member c i => c = e.cid → i < e.size
+  | _ => True
+
+instance (e : Enumeration) (x : Elem) : Decidable (x.WF e) := by
+  cases x <;> unfold Elem.WF <;> infer_instance
+
+/-- Every `Enum` instance held by the input is well formed. (For an `EnumArray` of `e` handed
+to `encode`: it holds valid indices, i.e. it was produced by `encode` and not assembled by hand
+from arbitrary integers.) -/
+def Input.WF (e : Enumeration) (x : Input) : Prop := ∀ el ∈ x.elems, el.WF e
+
+instance (e : Enumeration) (x : Input) : Decidable (x.WF e) := by unfold Input.WF; infer_instance
 
 /-- `x` is not an `EnumArray` of another enumeration (such an array is returned untouched,
 still tagged with its own enumeration). -/
@@ -279,7 +297,24 @@ def Input.Rejected (e : Enumeration) : Input → Prop
   | .objArr xs => ∃ x ∈ xs, x.kind ≠ .enum ∨ ¬ x.Designates e
   | .otherArr n => n ≠ 0
 
+instance (e : Enumeration) (x : Input) : Decidable (x.NotForeignArray e) := by
+  cases x <;> unfold Input.NotForeignArray <;> infer_instance
+
+instance (e : Enumeration) (x : Input) : Decidable (x.Rejected e) := by
+  cases x <;> unfold Input.Rejected <;> infer_instance
+
+/-- the array is tagged with `e` and every index it holds designates a member of `e` -/
 def EnumArray.ValidFor (e : Enumeration) (a : EnumArray) : Prop :=
   a.owner = e.cid ∧ ∀ i ∈ a.idx, i < e.size
+
+instance (e : Enumeration) (a : EnumArray) : Decidable (a.ValidFor e) := by
+  unfold EnumArray.ValidFor; infer_instance
+
+/-- results can be compared (used by the `example`s beside the theorems) -/
+instance exceptDecEq {α : Type} [DecidableEq α] : DecidableEq (Except String α)
+  | .ok a, .ok b => if h : a = b then isTrue (by rw [h]) else isFalse (fun e => h (by cases e; rfl))
+  | .error a, .error b => if h : a = b then isTrue (by rw [h]) else isFalse (fun e => h (by cases e; rfl))
+  | .ok _, .error _ => isFalse (fun e => by cases e)
+  | .error _, .ok _ => isFalse (fun e => by cases e)
 
 end OFCore.EnumCodec
